@@ -132,6 +132,10 @@ def _run(job):
                 if layout[j] != 'constant':
                     v = np.sort(old[c].to_numpy(dtype=float))
                     old[c] = (v if j % 2 else v[::-1]) * 0.5 + 3.0
+            if seed % 4 in (1, 2):          # ... and one of its columns was the constant 0 where the new table varies
+                free = [c for j, c in enumerate(cols) if layout[j] != 'constant']
+                if free:
+                    old[free[seed % len(free)]] = 0 if seed % 8 < 4 else 0.0
             if seed % 2:          # the earlier table had its columns in another order
                 old = old[list(old.columns)[::-1]]
             m.fit(old)
